@@ -113,7 +113,7 @@ PROPS = {
                       "C17_undo_safe_of_log; before the repair of D47 that invariant was not kept by a vi-mode read), the same for YankPop in "
                       "EMACS mode (no-panic half proved for J = PopOK: C17_yankPop_safe_of_popOK), and every other command and "
                       "every non-command step of the read keeps J. No such J is exhibited: the theorem is a proved reduction of "
-                      "'the only panic is D43' to these obligations, not the unconditional statement. "
+                      "'the only panic is D43' to these obligations, not the unconditional statement. Building block for PopOK (not yet used by that theorem): C17_ring_frame - every command but Kill / Replace / ViYankTo / Yank / YankPop, next_cmd and the dispatch loop leave the kill ring exactly as it was (Lemmas/EditorRing.lean, structural pass em_ring). "
                       "Discharged by the result-tracking pass C17_next_cmd_returns (every command next_cmd returns, in both modes: a "
                       "ReplaceChar count is <= 65535, and in vi mode it is never YankPop - C17_vi_never_yankPop for the default "
                       "keymaps; C17_dispatch_returns: the sub-loops hand back only such commands): the former obligations about "
@@ -680,8 +680,8 @@ PROPS["C05"] = {
     "trusted_base": ["pty harness (quiescence detection through /proc, one key press at a time) and diff",
                      "scripted helpers are functions of the text (same table on both sides)",
                      "the theorems are about the Changeset model (Rl/Undo.lean) and the three line-buffer primitives Change::undo calls; that the editor model keeps `replayLog undos = line` across whole commands (every LineBuffer call reports exactly what it did: property C03) is checked by the differential run and the oracle, not proved"],
-    "unproved": ['C05_abort_transparent_statement'],
-    "level_text": "Lean theorems, for every stack and every notification sequence (no bound), about the undo-log model: the stack is an exact log (replaying it oldest-first reproduces the line after any listener notifications, all three merge rules included: C05_log_replay, C05_log_markers); Begin/End stay balanced under begin / notifications / truncate and end closes all levels (C05_balanced); begin ... truncate(mark) restores stack and level exactly (C05_truncate_restores: the D10 repair); one pass of the undo loop pops exactly one unit - one change or one complete End..Begin group - for every repeat count (C05_undo_unit, also for the model's own loop); Change::undo inverts a recorded change on the line buffer, proved from the LineBuffer definitions (C05_undo_inverts); C05_abort_transparent_statement is kept as a def (not proved; D47 - an aborted search during which vi insert mode was left kept records of its own in the log - is repaired, regression examples by kernel evaluation of the editor model in Props/C05.lean; as written the statement still fails in vi mode for a benign reason, the insert session's open Begin is closed when the session is left; C05_ops_shape is the shape lemma its emacs-mode proof needs); under the log invariant Undo with any count never panics and leaves the line at the replay of the remaining older log, and an emptied stack means the start text (C05_undo_past_text, C05_undo_to_empty). The editor model is diffed against the real editor on a pty and oracleC05 runs over the implementation's callbacks. Partial: the lifting of the log invariant and of abort transparency to whole editor commands (Ed states) is stated, not proved; D22 (a typed alphanumeric merges into a preceding yank/paste Insert) is recorded as a witness theorem and deliberately not judged by the oracle; Undo keeps the markers balanced (C05_undo_balanced: level = number of unmatched Begin markers after an Undo inside an open group too; D38 repaired) and a change replayed by . closes its own group (D39 repaired).",
+    "unproved": ['C05_abort_transparent_statement (false in vi mode as written: C05_abort_transparent_vi_false; emacs clause proved: C05_abort_transparent_emacs; no vi clause proved)'],
+    "level_text": "Lean theorems, for every stack and every notification sequence (no bound), about the undo-log model: the stack is an exact log (replaying it oldest-first reproduces the line after any listener notifications, all three merge rules included: C05_log_replay, C05_log_markers); Begin/End stay balanced under begin / notifications / truncate and end closes all levels (C05_balanced); begin ... truncate(mark) restores stack and level exactly (C05_truncate_restores: the D10 repair); one pass of the undo loop pops exactly one unit - one change or one complete End..Begin group - for every repeat count (C05_undo_unit, also for the model's own loop); Change::undo inverts a recorded change on the line buffer, proved from the LineBuffer definitions (C05_undo_inverts); abort transparency on the EDITOR model, emacs mode, for every key sequence typed inside the sub-loop: an aborted incremental search and an aborted (or candidate-less) circular completion hand back None with the undo log - stack and group level - exactly as when the command started (C05_abort_transparent_emacs; searchLoop_log / completeCircular_log: loop invariant SubLog = begin of the log before, then notifications and nested begins; wp_nextCmd_emacs_changes: next_cmd leaves the log alone or opens one group; the mark never sinks; C05_ops_shape + C05_truncate_restores); C05_abort_transparent_statement (both modes, kept as a def) is false in vi mode for a benign reason - the insert session's open Begin is gone because a key inside the search left insert mode (C05_abort_transparent_vi_false, witness C05_vi_abort_closes_session by kernel evaluation); D47 and D48 (records of the sub-loop left in the log / the closed session re-opened by truncate) are repaired, regression example and corpus lines; under the log invariant Undo with any count never panics and leaves the line at the replay of the remaining older log, and an emptied stack means the start text (C05_undo_past_text, C05_undo_to_empty). The editor model is diffed against the real editor on a pty and oracleC05 runs over the implementation's callbacks. Partial: the lifting of the log invariant and of abort transparency to whole editor commands (Ed states) is stated, not proved; D22 (a typed alphanumeric merges into a preceding yank/paste Insert) is recorded as a witness theorem and deliberately not judged by the oracle; Undo keeps the markers balanced (C05_undo_balanced: level = number of unmatched Begin markers after an Undo inside an open group too; D38 repaired) and a change replayed by . closes its own group (D39 repaired).",
     "level_note": 'Trusted: Lean kernel; pty harness; the log-level theorems take the notification stream as given (its faithfulness is C03).',
     "assumptions": ["keyseq_timeout = None (default)"],
 }
